@@ -58,6 +58,8 @@ class RunHang(BaseException):
 
 
 RUN_WALL_S = 3 * float(os.environ.get("VERIF_HANG_S", "20"))
+_HANG_DIR = None      # batch mode: where a worker that cannot be unwound leaves its verdict
+_REPLAY_PATH = None   # replay mode: the file being replayed
 
 
 def guarded_execute(engine, plan, prop, choices=None):
@@ -82,6 +84,24 @@ def guarded_execute(engine, plan, prop, choices=None):
 			state["where"] = []
 		if not done.is_set():
 			ctypes.pythonapi.PyThreadState_SetAsyncExc(ctypes.c_ulong(me), ctypes.py_object(RunHang))
+		if done.wait(15):
+			return
+		# still not back: the loop is inside foreign (C) code, which no exception reaches.  The
+		# process is lost; leave the verdict where the parent (or the replaying user) finds it.
+		verdict = {"clause": "%s.hang" % prop, "owners": [prop], "detail": {"exc": "Hang",
+			"msg": "the run did not end within %g s of wall time and could not be interrupted (endless loop inside native code)" % (RUN_WALL_S + 15),
+			"where": state.get("where", [])[-4:]}}
+		if _HANG_DIR is not None:
+			try:
+				with open(os.path.join(_HANG_DIR, "hang.%d.json" % os.getpid()), "w") as f:
+					json.dump({"seed": plan.get("seed"), "plan": plan, "violation": verdict}, f, default=repr)
+			except Exception:
+				pass
+			os._exit(3)
+		print("VIOLATION property=%s replay=%s" % (prop, _REPLAY_PATH or "?"))
+		print("  clause=%s detail=%s" % (verdict["clause"], str(verdict["detail"])[:400]))
+		sys.stdout.flush()
+		os._exit(1)
 
 	w = threading.Thread(target=watchdog, name="vp-run-watchdog", daemon=True)
 	w._vp_real = True
@@ -244,8 +264,10 @@ def run_check(engine, prop, tier, level="exploration", runs_quick=400, budget_qu
 		budget = float(os.environ.get("VERIF_BUDGET_S", str(budget_quick_s)))
 		max_runs = int(os.environ.get("VERIF_MAX_RUNS", str(runs_quick)))
 	engine.setup()
-	global _ENGINE
+	global _ENGINE, _HANG_DIR
 	_ENGINE = engine  # inherited by the forked workers
+	import tempfile
+	_HANG_DIR = tempfile.mkdtemp(prefix="vp-hang.")
 	known = load_known()
 
 	recs = []
@@ -304,6 +326,24 @@ def run_check(engine, prop, tier, level="exploration", runs_quick=400, budget_qu
 		if harness_errors:
 			for p in list(mp.active_children()):
 				p.kill()
+	# workers that were lost in an endless loop inside native code left their verdict behind
+	import shutil
+	hang_recs = []
+	for fn in sorted(os.listdir(_HANG_DIR)):
+		try:
+			with open(os.path.join(_HANG_DIR, fn)) as f:
+				h = json.load(f)
+			hang_recs.append({"seed": h["seed"], "plan": h["plan"], "choices": None, "violation": h["violation"],
+				"digest": "hang", "sig": "hang", "nontrivial": True, "faults": {}, "probes": {}, "sim_ns": 0,
+				"steps": 0, "foreign": 0})
+		except Exception:
+			pass
+	shutil.rmtree(_HANG_DIR, ignore_errors=True)
+	_HANG_DIR = None
+	if hang_recs:
+		harness_errors = []   # the broken pool is explained
+		violations.extend(hang_recs)
+		recs.extend(hang_recs)
 
 	# determinism recheck: 2 % of the runs (at least 3) again, in the parent process
 	mismatches = 0
@@ -453,6 +493,8 @@ def replay(engine, prop, path):
 		rp = json.load(f)
 	engine.setup()
 	known = load_known()
+	global _REPLAY_PATH
+	_REPLAY_PATH = path
 	res = guarded_execute(engine, rp["plan"], prop, choices=rp.get("choices"))
 	ow = res.owned(prop)
 	want = rp["violation"]["clause"]
